@@ -62,7 +62,12 @@ fn flatten_fn_update(
         FnUpdate::Not(update) => flatten_fn_update(network, update, synthetic).negation(),
         FnUpdate::Param(id, args) => {
             let name = network.get_parameter(*id).get_name().clone();
-            explode_function(network, args, format!("{name}_"), synthetic)
+            // the arguments can contain uninterpreted functions themselves
+            let args = args
+                .iter()
+                .map(|arg| flatten_fn_update(network, arg, synthetic))
+                .collect::<Vec<_>>();
+            explode_function(network, &args, format!("{name}_"), synthetic)
         }
         FnUpdate::Binary(op, left, right) => FnUpdate::Binary(
             *op,
